@@ -15,20 +15,20 @@ TECHNIQUE = (
 )
 CUT = 1e-5
 TOL = 1e-5
-# sub-check 'solver-cut' (u in [0.5, 1-mellin_cut]): calibrated bounds = ~4 x the worst deviation of the unchanged tree,
-# measured per group over 6 generator seeds x 400 cases (5832 points): node 5.9e-4, top 2.4e-4, point 2.0e-2, near-one 8.8e-2
-SOLVER_TOL = {"node": 2.5e-3, "top": 1e-3, "point": 8e-2, "near-one": 0.35}
-TOP_BAND = (0.01, 0.052)  # -ln x of the 'top' group: x in (0.95, 0.99]
+# sub-check 'solver-cut' (u in [0.5, 1-mellin_cut]): calibrated bounds = 4 x the worst deviation of the unchanged tree per
+# group (see ASSUMPTIONS): node 2.0e-3, top 8.9e-5, point 2.0e-2, near-one 8.8e-2
+SOLVER_TOL = {"node": 8e-3, "top": 4e-4, "point": 8e-2, "near-one": 0.35}
+TOP_BAND = (0.012, 0.052)  # -ln x of the 'top' group: x in (0.95, 0.988]
 RULE = (
     "Log grids of 4-12 points, geometric with <= 25% jitter of the log spacing, x_min in [1e-6, 0.1], last point 1, "
     "degree 1-4 <= points-1; per case one contour id (singlet-like 100/21/90/22/101 -> offset 1, non-singlet-like "
     "10101/10200/10204/200/10103 -> offset 0) and up to 4 inversion points: nodes (never x=1), and for degree >= 2 "
     "points inside an area (fraction 0.02-0.98 of its log width), just below a node (log distance 1e-9..1e-2 of the "
-    "area width; 1e-3..1e-2 below x=1), just above a node, and 'top' points x = 1-t, t log-uniform in [0.01, 0.05]; every basis function j of the grid is inverted at every point: "
+    "area width; 1e-3..1e-2 below x=1), just above a node, and 'top' points x = 1-t, t log-uniform in [0.012, 0.05]; every basis function j of the grid is inverted at every point: "
     f"int_0.5^(1-{CUT:g}) Re[integrand] du (scipy quad, epsrel 1e-10) must equal p_j(x) within {TOL:g}, p_j(x) from the exact "
     "reference basis (0/1 at nodes) and eko's own evaluate_x. Sub-check 'solver-cut': the part of the same integral "
     "over the range the runner integrates, u in [0.5, 1-mellin_cut] (default read from Operator.__init__, 0.05), must "
-    "equal p_j(x) within a calibrated bound per group (node / top: 0.01 <= -ln x < 0.052 / near-one: -ln x < 0.01 / "
+    "equal p_j(x) within a calibrated bound per group (node / top: 0.012 <= -ln x < 0.052 / near-one: -ln x < 0.012 / "
     "point: the rest). Non-trivial = (degree >= 2 and a point that is not a node) or a singlet-like "
     "contour; distinct by the whole case."
 )
@@ -45,12 +45,14 @@ ASSUMPTIONS = [
     "cancels the boundary term) and the integration truncated at 1-CUT is off by 2*CUT = 2e-5 there (measured at "
     "x = 1-5e-9), a limitation of the quadrature oracle, not of the representation; the runner never inverts there (its "
     "highest inversion point below 1 is the last-but-one node)",
-    "solver-cut bounds are calibrated, not derived: worst deviation of the unchanged tree over 6 generator seeds x 400 "
-    "cases (5832 points): nodes 5.9e-4 (bound 2.5e-3), top band x in (0.95, 0.99] 2.4e-4 (bound 1e-3), other non-node "
-    "points 2.0e-2 (just below a node / coarse cells at small x; bound 8e-2), points with -ln x < 0.01 8.8e-2 (bound "
-    "0.35: there the truncated integral of the unchanged tree is itself inaccurate, 1.8e-3 at x=0.993, 5.7e-3 at 0.995, "
-    "1.8e-2 at 0.997, 5.7e-2 at 0.999, so 'top' points are drawn from t >= 0.01 only); the runner never inverts at "
-    "non-node points, so only the node bound describes the accuracy of computed operators",
+    "solver-cut bounds are calibrated, not derived: 4 x the worst deviation of the unchanged tree, measured per group over "
+    "6 generator seeds x 400 cases (5832 points), one thorough run (4800 cases) and targeted scans of 960 + 900 grids with "
+    "the step jitter at its bounds: nodes 2.0e-3 (degree 1, 12 points, lowest node, singlet contour; 5.9e-4 over the "
+    "generated cases) -> bound 8e-3; top band x in (0.95, 0.988] 8.9e-5 (grid-independent: 1.7e-11 at x=0.95, 5e-8 at 0.97, "
+    "8.9e-5 at 0.988) -> bound 4e-4; other non-node points 2.0e-2 (just below a node / coarse cells at small x) -> bound "
+    "8e-2; points with -ln x < 0.012 8.8e-2 -> bound 0.35 (there the truncated integral of the unchanged tree is itself "
+    "inaccurate: 3.0e-4 at x=0.99, 1.8e-3 at 0.993, 5.7e-3 at 0.995, 1.8e-2 at 0.997, 5.7e-2 at 0.999, so 'top' points are "
+    "drawn from t >= 0.012 only); the runner inverts at nodes only, so only the node bound describes computed operators",
     "degree-1 grids are inverted at nodes only (the property claims arbitrary points for degree >= 2 only)",
     "interpreted mode (NUMBA_DISABLE_JIT=1); QuadKerBase is plain Python, Path a jitclass, log_evaluate_Nx njit",
 ]
@@ -98,7 +100,7 @@ def strategy(tier):
                 x = grid[i]
             elif kind == "top":
                 # upper 5% of the range, where the solver's truncated path is most sensitive to the contour radius
-                x = 1.0 - math.exp(draw(fl(math.log(1e-2), math.log(0.05))))
+                x = 1.0 - math.exp(draw(fl(math.log(0.012), math.log(0.05))))
             elif kind == "inside":
                 x = math.exp(a + draw(fl(0.02, 0.98)) * (b - a))
             elif kind == "below":
